@@ -159,10 +159,18 @@ Definition validate_extra_data (f : wfile) : res unit :=
 
 (* ---------- the writer state *)
 Inductive winner :=
-| WClosed
+| WClosed (last : option dev)         (* the sink is gone; [last] remembers its final content for observation only *)
 | WStorer (d : dev)
 | WEnc (d : dev) (buf : bytes) (k : zc_keys)
 | WComp (m : CompressionMethod) (lvl : Z) (d : dev) (e : option (bytes * zc_keys)) (pending : bytes).
+
+Definition dev_of (i : winner) : option dev :=
+  match i with
+  | WClosed l => l
+  | WStorer d | WEnc d _ _ | WComp _ _ d _ _ => Some d
+  end.
+Definition close_of (i : winner) : winner := WClosed (dev_of i).
+Definition is_closed (i : winner) : bool := match i with WClosed _ => true | _ => false end.
 
 Record wstate := {
   ws_inner : winner; ws_files : list wfile; ws_start : N; ws_written : N; ws_hashed : bytes;
@@ -217,7 +225,7 @@ Section Writer.
     | CompressionMethod_Deflated => let l := match lvl with Some l => l | None => 6%Z end in
                                     if (0 <=? l)%Z && (l <=? 9)%Z then Some l else None
     | CompressionMethod_Bzip2 => let l := match lvl with Some l => l | None => 6%Z end in
-                                 if (0 <=? l)%Z && (l <=? 9)%Z then Some l else None
+                                 if (1 <=? l)%Z && (l <=? 9)%Z then Some l else None       (* fix D17 *)
     | CompressionMethod_Zstd => let l := match lvl with Some l => l | None => 3%Z end in
                                 if (-7 <=? l)%Z && (l <=? 22)%Z then Some l else None
     | _ => None
@@ -225,7 +233,7 @@ Section Writer.
 
   Definition cur_method (i : winner) : option CompressionMethod :=
     match i with
-    | WClosed => None
+    | WClosed _ => None
     | WStorer _ | WEnc _ _ _ => Some CompressionMethod_Stored
     | WComp m _ _ _ _ => Some m
     end.
@@ -236,8 +244,8 @@ Section Writer.
     | WComp m lvl d None pending =>
         match dev_write_all d (enc m lvl pending) with
         | (d', Ok _) => (WStorer d', Ok tt)
-        | (d', Err e) => (WClosed, Err e)
-        | (d', Panic p) => (WClosed, Panic p)
+        | (d', Err e) => (WClosed (Some d'), Err e)
+        | (d', Panic p) => (WClosed (Some d'), Panic p)
         end
     | WComp m lvl d (Some (buf, k)) pending => (WEnc d (buf ++ enc m lvl pending) k, Ok tt)
     | other => (other, Ok tt)
@@ -254,21 +262,21 @@ Section Writer.
             match m with
             | CompressionMethod_Stored =>
                 match lvl with
-                | Some _ => (set_inner s WClosed, Err (EUnsupported MUnsupportedLevel))
+                | Some _ => (set_inner s (close_of i1), Err (EUnsupported MUnsupportedLevel))
                 | None => (set_inner s i1, Ok tt)
                 end
             | CompressionMethod_Deflated | CompressionMethod_Bzip2 | CompressionMethod_Zstd =>
                 match level_ok m lvl with
-                | None => (set_inner s WClosed, Err (EUnsupported MUnsupportedLevel))
+                | None => (set_inner s (close_of i1), Err (EUnsupported MUnsupportedLevel))
                 | Some l =>
                     match i1 with
                     | WStorer d => (set_inner s (WComp m l d None []), Ok tt)
                     | WEnc d buf k => (set_inner s (WComp m l d (Some (buf, k)) []), Ok tt)
-                    | _ => (set_inner s WClosed, Panic PUnreachable)
+                    | _ => (set_inner s (close_of i1), Panic PUnreachable)
                     end
                 end
-            | CompressionMethod_Aes => (set_inner s WClosed, Err (EUnsupported MAesWrite))
-            | CompressionMethod_Unsupported _ => (set_inner s WClosed, Err (EUnsupported MUnsupportedCompression))
+            | CompressionMethod_Aes => (set_inner s (close_of i1), Err (EUnsupported MAesWrite))
+            | CompressionMethod_Unsupported _ => (set_inner s (close_of i1), Err (EUnsupported MUnsupportedCompression))
             end
         | (i1, Err e) => (set_inner s i1, Err e)
         | (i1, Panic p) => (set_inner s i1, Panic p)
@@ -296,7 +304,7 @@ Section Writer.
   (* ---------- end_extra_data (needed by finish_file) *)
   Definition end_extra_data (s : wstate) : wstate * res N :=
     if negb (ws_to_extra s) then (s, Err (EIo KOther INotExtra)) else
-    match ws_inner s with WClosed => (s, Err closed_err) | _ =>
+    match ws_inner s with WClosed _ => (s, Err closed_err) | _ =>
     match last_file (ws_files s) with
     | None => (s, Panic PLastUnwrap)
     | Some f =>
@@ -355,11 +363,11 @@ Section Writer.
                   match dev_write_all d ct with
                   | (d1, Ok _) => match dev_flush d1 with
                                   | (d2, Ok _) => (set_inner s1 (WStorer d2), Ok tt)
-                                  | (d2, Err e) => (set_inner s1 WClosed, Err e)
-                                  | (d2, Panic p) => (set_inner s1 WClosed, Panic p)
+                                  | (d2, Err e) => (set_inner s1 (WClosed (Some d2)), Err e)
+                                  | (d2, Panic p) => (set_inner s1 (WClosed (Some d2)), Panic p)
                                   end
-                  | (d1, Err e) => (set_inner s1 WClosed, Err e)
-                  | (d1, Panic p) => (set_inner s1 WClosed, Panic p)
+                  | (d1, Err e) => (set_inner s1 (WClosed (Some d1)), Err e)
+                  | (d1, Panic p) => (set_inner s1 (WClosed (Some d1)), Panic p)
                   end
               | WStorer _ => (s1, Ok tt)
               | _ => (s1, Panic PUnreachable)
@@ -490,7 +498,7 @@ Section Writer.
   Definition zw_write (s : wstate) (buf : bytes) : wstate * res N :=
     if negb (ws_to_file s) then (s, Err (EIo KOther INoFileStarted)) else
     match ws_inner s with
-    | WClosed => (s, Err closed_err)
+    | WClosed _ => (s, Err closed_err)
     | i =>
         if ws_to_extra s then
           (set_files s (upd_last (ws_files s) (fun g => wf_set_extra g (w_extra g ++ buf))), Ok (len buf))
@@ -500,14 +508,14 @@ Section Writer.
             | WStorer d => let '(d', r) := dev_write d buf in (WStorer d', r)
             | WEnc d b k => (WEnc d (b ++ buf) k, Ok (len buf))
             | WComp m l d e pending => (WComp m l d e (pending ++ buf), Ok (len buf))
-            | WClosed => (WClosed, Err closed_err)
+            | WClosed l => (WClosed l, Err closed_err)
             end in
           match r with
           | Ok count =>
               let s1 := set_stats (set_inner s i') (ws_start s) (ws_written s + count) (ws_hashed s ++ take count buf) in
               let large := match last_file (ws_files s1) with Some f => w_large f | None => false end in
               if (ZIP64_BYTES_THR <? ws_written s1) && negb large
-              then (set_inner s1 WClosed, Err (EIo KOther ILargeFile))
+              then (set_inner s1 (close_of (ws_inner s1)), Err (EIo KOther ILargeFile))
               else (s1, Ok count)
           | Err e => (set_inner s i', Err e)
           | Panic p => (set_inner s i', Panic p)
@@ -654,7 +662,7 @@ Section Writer.
     match finalize s with
     | (s1, Ok _) =>
         match ws_inner s1 with
-        | WStorer d => (set_inner s1 WClosed, Ok (d_buf d))
+        | WStorer d => (set_inner s1 (WClosed (Some d)), Ok (d_buf d))
         | _ => (s1, Panic PUnwrapWriter)
         end
     | (s1, Err e) => (s1, Err e)
@@ -664,7 +672,7 @@ Section Writer.
   (* Drop: finalize unless already closed; errors are only printed *)
   Definition drop_writer (s : wstate) : wstate * res unit :=
     match ws_inner s with
-    | WClosed => (s, Ok tt)
+    | WClosed _ => (s, Ok tt)
     | _ => match finalize s with
            | (s1, Panic p) => (s1, Panic p)
            | (s1, _) => (s1, Ok tt)
@@ -673,10 +681,7 @@ Section Writer.
 
   (* the bytes in the sink, whatever the state *)
   Definition sink_bytes (s : wstate) : option bytes :=
-    match ws_inner s with
-    | WStorer d | WEnc d _ _ | WComp _ _ d _ _ => Some (d_buf d)
-    | WClosed => None
-    end.
+    match dev_of (ws_inner s) with Some d => Some (d_buf d) | None => None end.
 
   (* ---------- new_append *)
   Definition wfile_of_zfd (f : zfd) : wfile :=
